@@ -91,7 +91,31 @@ SHOW_CFG = {
     'extern_ret': {'mpz_print': 'verif_os *'},
     'bodies_prelude': 'verif_os *mpz_print(verif_os *o, mpz_class value);\n',
 }
-SHOW_ROOTS = [show_root('hex'), show_root('oct'), 'numeric_constant_dom_t::show']
+VC = r'std::vector<char(, std::allocator<char>)?>'
+VCIT = r'__gnu_cxx::__normal_iterator<(const )?char \*, std::vector<char.*>>'
+SHOW_CFG['types'] = dict(SHOW_CFG['types'])
+SHOW_CFG['types'].update({VC: 'vec_char', VCIT + r'|std::vector<char>::(const_)?iterator': 'char *'})
+SHOW_CFG['types_are_records'] = dict(SHOW_CFG['types_are_records'])
+SHOW_CFG['types_are_records'][VC] = True
+SHOW_CFG['record_ctypes'] = list(SHOW_CFG['record_ctypes']) + ['vec_char']
+SHOW_CFG['record_default'] = {'vec_char': 'vec_char_new()'}
+SHOW_CFG['types_prelude'] = '#include "osmodel.h"\n#include "vecgen.h"\nVERIF_VEC(vec_char, char);\n' \
+    'static inline vec_char vec_char_new(void) { static char store[72]; vec_char v; v.data = store; v.len = 0; v.cap = 72; return v; }\n'
+SHOW_CFG['extern'].update({
+    VC + r'::push_back': 'GVEC_PUSH_BACK', VC + r'::begin': 'GVEC_BEGIN', VC + r'::end': 'GVEC_END',
+    VCIT + r'::operator\*': {'c': 'GIT_DEREF', 'by_value': True},
+    r'std::reverse': {'c': 'gvec_reverse_char', 'by_value': True},
+    r'operator<\|bool \(mpz_class, mpz_class\)': 'io_mpz_lt', r'operator==\|bool \(mpz_class, mpz_class\)': 'io_mpz_eq',
+    r'operator-\|mpz_class \(mpz_class\)': 'io_mpz_neg'})
+SHOW_CFG['extern_may_raise'] = ['mpz_print', 'io_mpz_neg']
+SHOW_CFG['bodies_prelude'] += '_Bool io_mpz_lt(mpz_class, mpz_class); _Bool io_mpz_eq(mpz_class, mpz_class); mpz_class io_mpz_neg(mpz_class);\n'
+SHOW_CFG['names'].update({'_ZN9mpz_classC1Ei': 'show_mpz_from_int', '_ZN9mpz_classC1Em10signedness': 'show_mpz_mk', 'mpz_class::uval': 'show_mpz_uval',
+                          '_Zge9mpz_classS_': 'io_mpz_ge'})
+SHOW_CFG['extern'][r'operator>=\|bool \(mpz_class, mpz_class\)'] = 'io_mpz_ge'
+SHOW_CFG['bodies_prelude'] += '_Bool io_mpz_ge(mpz_class, mpz_class);\n'
+SHOW_ROOTS = [show_root('hex'), show_root('oct'), show_root('bin'), 'numeric_constant_dom_t::show']
+INTIO_CFG['names'].update({'_Zeq9mpz_classS_': 'io_mpz_eq', '_Zge9mpz_classS_': 'io_mpz_ge'})
+INTIO_ROOTS = ['_ZlsRSo9mpz_class', '_Zeq9mpz_classS_', '_Zge9mpz_classS_']
 INPUTS = ['len', 'in[*']
 FLAGS = ['-I%s' % vlib.REPO]
 
@@ -111,12 +135,12 @@ def jobs(tier):
     kf_defs = ['RADIX_ZERO_DOMAIN_KNOWN'] if kf else []
     rsrc = [os.path.join(HERE, 'radix_harness.c'), os.path.join(OUT, 'intio_bodies.c'), os.path.join(OUT, 'show_bodies.c'),
             os.path.join(OUT, 'parse_bodies.c')]
-    for radix, extra, note in (('hex', [], 'all 2^65 values'), ('oct', [], 'all 2^65 values'),
+    for radix, extra, note in (('hex', [], 'all 2^65 values'), ('oct', [], 'all 2^65 values'), ('bin', [], 'all 2^65 values'),
                                ('dec', ['RADIX_SMALL=%d' % (9999 if tier == 'quick' else 999999)],
                                 'BOUNDED: |value| <= %d (decimal digit arithmetic is out of the solver\'s reach for all values)' % (9999 if tier == 'quick' else 999999))):
         J.append(Job('radix_roundtrip_' + radix, rsrc, 'hb_radix_' + radix, includes=inc + [os.path.join(HERE, '..', 'c08')],
-                     inputs=['v.*', 'v'], input_fns=['roundtrip'], defines=['OS_CAP=32', 'PARSE_MAXLEN=30'] + extra + kf_defs,
-                     kind='bounded' if radix == 'dec' else 'proof', unwind=28, timeout=1500,
+                     inputs=['v.*', 'v'], input_fns=['roundtrip'], defines=['OS_CAP=80', 'PARSE_MAXLEN=78'] + extra + kf_defs,
+                     kind='bounded' if radix == 'dec' else 'proof', unwind=70 if radix == 'bin' else 28, timeout=1500,
                      note='render by <domain>::show, read back by parse_int; %s; loops bounded by the number of digits of a '
                           '64-bit value (full unwinding)' % note))
     if kf:
@@ -249,7 +273,7 @@ def replay_radix(r):
     if u is None:
         return {'reproduced': False, 'note': 'no value in the counterexample'}
     val = u - (1 << 64) if (sign and u >= 1 << 63) else u
-    word = {'hex': 'hex', 'oct': 'oct', 'dec': 'dec'}[radix]
+    word = {'hex': 'hex', 'oct': 'oct', 'dec': 'dec', 'bin': 'bin'}[radix]
     res = vlib.zw_queries(['%d %s' % (val, word)], OUT)
     if not res or res[0][0] is None:
         return {'reproduced': False, 'error': 'query failed: %r' % (res,)}
